@@ -58,9 +58,11 @@ int backup_copy_file(const char *filename, const std::vector<UINT8> &data);
  * This should be called after the file was written to disk.
  * It will be read back and an md5 will be calculated over it.
  *
- * @param filename  The file that was written (full path)
+ * @param filename       The file the md5 is recorded for (full path)
+ * @param data_filename  The file holding the data that was (or is about to be
+ *                       renamed to) filename; if nullptr, filename itself is read
  */
-void backup_create_md5_file(const char *filename);
+void backup_create_md5_file(const char *filename, const char *data_filename = nullptr);
 
 
 #endif /* BACKUP_H_INCLUDED */
